@@ -20,6 +20,7 @@ import Ajson.Proofs.Refine
 import Ajson.Proofs.RefineDelete
 import Ajson.Proofs.AppendMany
 import Ajson.Proofs.SetNodeValue
+import Ajson.Proofs.AppendManyValue
 import Ajson.Model.Decode
 
 namespace Ajson.Props.C05
@@ -133,6 +134,15 @@ theorem C05_append_array_is_append {h : Heap} (hs : Struct h) (ha : Acyc h) (n v
     (∀ xs x, absVal (fuel + 1) h n = some (.arr xs) → absVal fuel h v = some x →
       absVal (fuel + 1) (h.appendArray n [v]).1 n = some (.arr (xs ++ [x]))) :=
   appendArray_refines hs ha n v hn hv harr hloop hroot fuel
+
+/-- **AppendArray(values...) is "append all"**: for any number of fresh or detached, pairwise different arguments the receiver denotes
+its old elements followed by the values of the arguments, in order; all nodes off its ancestor chain keep their value -/
+theorem C05_append_array_many_is_append_all {h : Heap} (hs : Struct h) (ha : Acyc h) (n : Nat) (hn : n < h.size) (harr : (h.get n).type = .array)
+    (vs : List Id) (hnd : vs.Nodup) (hvs : ∀ v ∈ vs, (v : Nat) < h.size ∧ (h.get v).parent = none ∧ ¬ Anc h v n) (fuel : Nat) :
+    (∀ m : Id, ¬ Anc h m n → absVal fuel (h.appendArray n vs).1 m = absVal fuel h m) ∧
+    (∀ xs ys, absVal (fuel + 1) h n = some (.arr xs) → vs.mapM (fun v => absVal fuel h v) = some ys →
+      absVal (fuel + 1) (h.appendArray n vs).1 n = some (.arr (xs ++ ys))) :=
+  appendArray_many_refines hs ha n hn harr vs hnd hvs fuel
 
 /-- **AppendObject under a new key is "add a member"** -/
 theorem C05_append_object_adds_a_member {h : Heap} (hs : Struct h) (ha : Acyc h) (n v : Nat) (hn : n < h.size) (hv : v < h.size)
